@@ -1,5 +1,6 @@
 use crate::core::Run;
 pub mod c01;
+pub mod c03;
 pub mod c04;
 pub mod c08;
 pub mod c09;
@@ -8,6 +9,7 @@ pub mod c13;
 pub fn dispatch(prop: &str, run: &mut Run) {
     match prop {
         "C01" => c01::run(run),
+        "C03" => c03::run(run),
         "C04" => c04::run(run),
         "C08" => c08::run(run),
         "C09" => c09::run(run),
